@@ -9,7 +9,9 @@ the IndexError of middle_tree.children[0], and the document stays a proper tree,
 Search: each pass called DIRECTLY (not through the catch-all) in the documented order on trees of the adversarial and
 the well-formed input space, under a time limit; exception or time-out = failing input; clean_all's error reports too.
 Families in both spaces: 2..25 structurally EQUAL offenders under one forbidden ancestor (fix_nesting must stay linear), every
-numeric attribute the current source reads by name x every number spelling (exhaustive sweep + random combinations)."""
+numeric attribute the current source reads by name x every number spelling (exhaustive sweep + random combinations); space 1:
+captioned tables (caption of 0..16 inline nodes x the trigger of every table pass; exhaustive sweep + random members), one
+footnote name in many spellings."""
 import json
 
 from vt import core
@@ -44,11 +46,19 @@ def check(run):
                 "source reads by name) with one of the number spellings (ints, floats, exponents that overflow, inf/nan spellings, hex/"
                 "octal/binary, underscores, Unicode digits, signs, blanks, units, garbage, digit strings around CPython's 4300-digit "
                 "limit); 5%%: 2..25 structurally equal (85%%) or distinct offenders under one forbidden ancestor for every expressible "
-                "pair of forbidden_parents; on top, exhaustively: every attribute / style property the source reads by name x every "
-                "number spelling on a small table / div; space 2: well-formed documents (2%% of the blocks: 2..25 equal captioned images "
+                "pair of forbidden_parents; 4%%: a captioned table = one of %d table-pass triggers (every size / shape / class / style "
+                "condition a table pass of treecleaner.py tests: big cells by list length / characters / nested rows / nested columns, "
+                "split class and id, bordered nested tables, headings+lists, single-column long / one-row / images / gallery / > 200 cells, "
+                "container and wide nested tables, tall cells, list rows, navbox, scroll, trailing empty rows, ending cell, colspans, "
+                "wide, long, noprint, infobox, sections in cells) x 1-2 captions of 0..16 inline nodes (text, bold, italics, links, big, "
+                "ref, image, break) above / below / on both sides of the rows, mostly after lead text (not an infobox); 4%%: one footnote "
+                "name in 2..6 spellings (blanks, quoting, case, look-alikes) as definition / empty use / empty pair; on top, exhaustively: "
+                "every attribute / style property the source reads by name x every number spelling on a small table / div, trigger x "
+                "caption (%d documents), footnote name x spelling x definition/use x order (%d documents); space 2: well-formed documents (2%% of the blocks: 2..25 equal captioned images "
                 "in a preformatted line or equal indented lines inside one paragraph). "
                 "Each of the 58 entries of cleaner_methods is called directly, in order, under a CPU-time limit. distinct = distinct "
-                "wikitext; non-trivial = at least one pass changed the tree" % (len(G.SEEDS), len(G.UNITS), len(G.LENGTH_PROPS), len(G.KEYWORD_PROPS)))
+                "wikitext; non-trivial = at least one pass changed the tree" % (len(G.SEEDS), len(G.UNITS), len(G.LENGTH_PROPS), len(G.KEYWORD_PROPS),
+                                                                             len(G.TABLE_TRIGGERS), len(G.captioned_table_sweep()), len(G.refname_sweep())))
     run.trusted = c05.TRUSTED + ["vt/gen/c06_api.py (Python ast): which attribute reads count as obligations (Load/Del on non-module "
                                  "receivers; getattr/hasattr with literal names are guarded reads and are not), which sources define names",
                                  "the fixed allow-list of builtin-type attributes in vt/gen/c06_api.py",
